@@ -48,6 +48,13 @@
 #define VF_DNS_NS(p)		VF_DNS_BE16(p, 8)
 #define VF_DNS_AR(p)		VF_DNS_BE16(p, 10)
 
+/* Offsets of the question / RR accessors: 0 (rejected by the code) or a position after the
+ * header.  Offsets 1..11 -- inside the header -- are accepted by the code when no name is
+ * requested, but the accessors then form `(size_t)hdr + offset + name_size - sizeof(uint8_t*)`
+ * below the start of the message object, an integer round trip CBMC's pointer model cannot
+ * follow; no in-tree caller passes such an offset (dns_msg_info_get starts at 12). */
+#define VF_DNS_OFFSET_ARG(offset)	((offset) == 0 || (offset) >= VF_DNS_HDR_SIZE)
+
 /*
  * Postconditions of the two functions that WRITE through a moving cursor, as plain C
  * macros: used verbatim in the __CPROVER_ensures clauses below and as assertions of the
@@ -170,12 +177,6 @@ __CPROVER_ensures(VF_DNS_POST_L2N_EOVERFLOW(VF_RV, name_buf_size, name_len_ret))
 	__CPROVER_assigns(name != NULL && name_len != NULL && *name_len != 0:	\
 	    __CPROVER_object_upto(name, *name_len))				\
 	__CPROVER_assigns(name != NULL && name_len != NULL: *name_len)
-/* Offsets of the question / RR accessors: 0 (rejected by the code) or a position after the
- * header.  Offsets 1..11 -- inside the header -- are accepted by the code when no name is
- * requested, but the accessors then form `(size_t)hdr + offset + name_size - sizeof(uint8_t*)`
- * below the start of the message object, an integer round trip CBMC's pointer model cannot
- * follow; no in-tree caller passes such an offset (dns_msg_info_get starts at 12). */
-#define VF_DNS_OFFSET_ARG(offset)	((offset) == 0 || (offset) >= VF_DNS_HDR_SIZE)
 #define VF_DNS_GET_DATA_RV							\
 	(VF_RV == 0 || VF_RV == EINVAL || VF_RV == EBADMSG || VF_RV == EOPNOTSUPP || \
 	 VF_RV == ELOOP || VF_RV == EOVERFLOW)
@@ -390,8 +391,210 @@ __CPROVER_ensures(VF_RV == 0 ==> msgbuf_size >= VF_DNS_HDR_SIZE)
 ;
 
 /* ------------------------------------------------------------------------------
- * Part 2 (C15): construction-side contracts go below this line.
+ * Part 2 (C15): construction side.
+ *
+ * Input model: the message buffer is an exact-size fresh object of msgbuf_size bytes
+ * (symbolic, 0..VF_DNS_MSG_MAX): EVERY capacity, in particular "one byte too small", is an
+ * input; msg_size (bytes already used) and every byte already in the buffer are arbitrary.
+ * Names are caller text of 0..VF_DNS_MSG_MAX bytes (valid and invalid ones).
+ * Content (which byte lands where == RFC 1035 4.1.1-4.1.3) is stated at the ghost index
+ * vf_dns_k for the fixed fields and RDATA here, and byte-for-byte against specs/dns_build_spec.h
+ * in the bounded round-trip jobs (harness/C15/dns_roundtrip.c).
  * ---------------------------------------------------------------------------- */
+
+/* ghost index: any byte position of the message buffer / of RDATA (never assigned) */
+extern size_t vf_dns_k;
+
+/* wire size of a dotted name of name_len bytes: root = 1, else len octet + text + end marker */
+#define VF_DNS_WIRE(name_len)	(((name_len) == 0) ? (size_t)1 : (size_t)(name_len) + 2)
+#define VF_DNS_NAME_WIRE_MAX	((size_t)255)	/* RFC 1035 2.3.4 */
+#define VF_DNS_U8(p, k)		(((const uint8_t *)(p))[(k)])
+/* bytes already in the buffer that an append must not touch: everything below msg_size except
+ * (for the functions that count) the 2-byte header counter at cnt_off */
+/* (__CPROVER_old cannot be guarded, so the entry value of that one byte is a ghost: the SNAP
+ * precondition ties vf_dns_old to byte vf_dns_k of the buffer at entry, for every function alike) */
+extern uint8_t vf_dns_old;
+#define VF_DNS_SNAP(hdr, cap)							\
+	__CPROVER_requires((hdr) == NULL || vf_dns_k >= (cap) || vf_dns_old == VF_DNS_U8(hdr, vf_dns_k))
+#define VF_DNS_PREFIX_KEPT(hdr, lim, cap)					\
+	(vf_dns_k >= (lim) || vf_dns_k >= (cap) || VF_DNS_U8(hdr, vf_dns_k) == vf_dns_old)
+#define VF_DNS_BUF(hdr, n)	((hdr) == NULL || __CPROVER_is_fresh((hdr), (n)))
+
+/* dotted text -> label sequence (no compression) */
+static inline int
+DomainNameToSequenceOfLabels(const uint8_t *name, size_t name_len, uint8_t *buf,
+    size_t buf_size, size_t *name_size_ret)
+__CPROVER_requires(name_len <= VF_DNS_MSG_MAX && buf_size <= VF_DNS_MSG_MAX)
+__CPROVER_requires(name == NULL || name_len == 0 || __CPROVER_is_fresh(name, name_len))
+__CPROVER_requires(buf == NULL || __CPROVER_is_fresh(buf, buf_size))
+__CPROVER_requires(VF_OUT_OPT(name_size_ret, size_t))
+__CPROVER_assigns(buf != NULL: __CPROVER_object_upto(buf, buf_size))
+__CPROVER_assigns(name_size_ret != NULL: *name_size_ret)
+__CPROVER_ensures(VF_RV == 0 || VF_RV == EINVAL || VF_RV == EOVERFLOW)
+__CPROVER_ensures(((name == NULL && name_len != 0) || buf == NULL) ==> VF_RV == EINVAL)
+/* the required size is reported whenever the arguments are usable */
+__CPROVER_ensures((!(name == NULL && name_len != 0) && buf != NULL && name_size_ret != NULL) ==>
+    *name_size_ret == VF_DNS_WIRE(name_len))
+/* loud failure instead of overflow; success => fits, RFC size limit respected, end marker */
+__CPROVER_ensures(VF_RV == EOVERFLOW ==> VF_DNS_WIRE(name_len) > buf_size)
+__CPROVER_ensures(VF_RV == 0 ==> (VF_DNS_WIRE(name_len) <= buf_size &&
+    VF_DNS_WIRE(name_len) <= VF_DNS_NAME_WIRE_MAX && buf[VF_DNS_WIRE(name_len) - 1] == 0))
+;
+
+static inline int
+dns_msg_name2sequence_of_labels(dns_hdr_p hdr, size_t msgbuf_size, size_t offset,
+    const uint8_t *name, size_t name_len, int compress, size_t *name_size_ret)
+__CPROVER_requires(name_len <= VF_DNS_MSG_MAX && msgbuf_size <= VF_DNS_MSG_MAX)
+/* no NULL test in the code: every caller has tested hdr before */
+__CPROVER_requires(__CPROVER_is_fresh(hdr, msgbuf_size))
+VF_DNS_SNAP(hdr, msgbuf_size)
+__CPROVER_requires(name == NULL || name_len == 0 || __CPROVER_is_fresh(name, name_len))
+__CPROVER_requires(VF_OUT_OPT(name_size_ret, size_t))
+__CPROVER_assigns(offset <= msgbuf_size:
+    __CPROVER_object_upto((uint8_t *)hdr + offset, msgbuf_size - offset))
+__CPROVER_assigns(name_size_ret != NULL: *name_size_ret)
+__CPROVER_ensures(VF_RV == 0 || VF_RV == EINVAL || VF_RV == EOVERFLOW || VF_RV == EOPNOTSUPP)
+__CPROVER_ensures((offset < VF_DNS_HDR_SIZE || offset > msgbuf_size) ==> VF_RV == EINVAL)
+__CPROVER_ensures(VF_RV == 0 ==> (name_size_ret == NULL || *name_size_ret == VF_DNS_WIRE(name_len)))
+__CPROVER_ensures(VF_RV == 0 ==> (VF_DNS_WIRE(name_len) <= msgbuf_size - offset &&
+    VF_DNS_WIRE(name_len) <= VF_DNS_NAME_WIRE_MAX))
+/* nothing below the write position changes */
+__CPROVER_ensures(VF_DNS_PREFIX_KEPT(hdr, offset, msgbuf_size))
+;
+
+static inline int
+dns_hdr_create(uint16_t id, uint16_t flags, dns_hdr_p hdr, size_t msgbuf_size,
+    size_t *msg_size_ret)
+__CPROVER_requires(msgbuf_size <= VF_DNS_MSG_MAX)
+__CPROVER_requires(__CPROVER_is_fresh(hdr, msgbuf_size))
+__CPROVER_requires(VF_OUT_OPT(msg_size_ret, size_t))
+__CPROVER_assigns(msgbuf_size >= VF_DNS_HDR_SIZE: __CPROVER_object_upto((uint8_t *)hdr, VF_DNS_HDR_SIZE))
+__CPROVER_assigns(msg_size_ret != NULL: *msg_size_ret)
+__CPROVER_ensures(VF_RV == ((msgbuf_size < VF_DNS_HDR_SIZE) ? EOVERFLOW : 0))
+__CPROVER_ensures(msg_size_ret == NULL || *msg_size_ret == VF_DNS_HDR_SIZE)
+/* RFC 1035 4.1.1: id and flags as given (the caller supplies them in wire order), counts 0 */
+__CPROVER_ensures(VF_RV == 0 ==> (VF_DNS_U8(hdr, 0) == (uint8_t)id && VF_DNS_U8(hdr, 1) == (uint8_t)(id >> 8) &&
+    VF_DNS_U8(hdr, 2) == (uint8_t)flags && VF_DNS_U8(hdr, 3) == (uint8_t)(flags >> 8) &&
+    VF_DNS_QD(hdr) == 0 && VF_DNS_AN(hdr) == 0 && VF_DNS_NS(hdr) == 0 && VF_DNS_AR(hdr) == 0))
+;
+
+/* header counters: big-endian 16-bit at byte offset `off`, +/- val modulo 2^16 */
+#define VF_DNS_CNT_CONTRACT(fn, off, op)					\
+static inline void fn(dns_hdr_p hdr, uint16_t val)				\
+__CPROVER_requires(__CPROVER_is_fresh(hdr, VF_DNS_HDR_SIZE))			\
+__CPROVER_assigns(__CPROVER_object_upto((uint8_t *)hdr + (off), 2))		\
+__CPROVER_ensures(VF_DNS_BE16(hdr, off) ==					\
+    (size_t)(uint16_t)(__CPROVER_old(VF_DNS_BE16(hdr, off)) op val))		\
+;
+VF_DNS_CNT_CONTRACT(dns_hdr_qd_inc, 4, +)
+VF_DNS_CNT_CONTRACT(dns_hdr_an_inc, 6, +)
+VF_DNS_CNT_CONTRACT(dns_hdr_ns_inc, 8, +)
+VF_DNS_CNT_CONTRACT(dns_hdr_ar_inc, 10, +)
+VF_DNS_CNT_CONTRACT(dns_hdr_qd_dec, 4, -)
+VF_DNS_CNT_CONTRACT(dns_hdr_an_dec, 6, -)
+VF_DNS_CNT_CONTRACT(dns_hdr_ns_dec, 8, -)
+VF_DNS_CNT_CONTRACT(dns_hdr_ar_dec, 10, -)
+
+/* the library's own (conservative) pre-check: 2 + name_len bytes are reserved for the name,
+ * i.e. one byte more than the root name needs */
+#define VF_DNS_NAME_RESERVE(name_len)	((size_t)2 + (name_len))
+
+/* append a question, QDCOUNT += 1 */
+static inline int
+dns_msg_question_add(dns_hdr_p hdr, size_t msg_size, size_t msgbuf_size,
+    int compress, const uint8_t *name, size_t name_len, uint16_t query_type,
+    uint16_t query_class, size_t *msg_size_ret)
+__CPROVER_requires(name_len <= VF_DNS_MSG_MAX && msgbuf_size <= VF_DNS_MSG_MAX && msg_size <= VF_DNS_MSG_MAX)
+__CPROVER_requires(VF_DNS_BUF(hdr, msgbuf_size))
+VF_DNS_SNAP(hdr, msgbuf_size)
+__CPROVER_requires(name == NULL || name_len == 0 || __CPROVER_is_fresh(name, name_len))
+__CPROVER_requires(VF_OUT_OPT(msg_size_ret, size_t))
+__CPROVER_assigns(hdr != NULL: __CPROVER_object_upto((uint8_t *)hdr, msgbuf_size))
+__CPROVER_assigns(msg_size_ret != NULL: *msg_size_ret)
+__CPROVER_ensures(VF_RV == 0 || VF_RV == EINVAL || VF_RV == EBADMSG || VF_RV == EOVERFLOW || VF_RV == EOPNOTSUPP)
+__CPROVER_ensures(hdr == NULL ==> VF_RV == EINVAL)
+/* size pre-check: too small a buffer is reported (with the size that would do), nothing is written */
+__CPROVER_ensures((hdr != NULL && msg_size >= VF_DNS_HDR_SIZE &&
+    msgbuf_size < msg_size + VF_DNS_NAME_RESERVE(name_len) + VF_DNS_Q_FIXED) ==>
+    (VF_RV == EOVERFLOW && (msg_size_ret == NULL ||
+     *msg_size_ret == msg_size + VF_DNS_NAME_RESERVE(name_len) + VF_DNS_Q_FIXED)))
+__CPROVER_ensures((hdr != NULL && VF_RV == EOVERFLOW) ==> VF_DNS_PREFIX_KEPT(hdr, msgbuf_size, msgbuf_size))
+/* success: new size = old + name + 4, inside the buffer */
+__CPROVER_ensures(VF_RV == 0 ==> (msg_size + VF_DNS_WIRE(name_len) + VF_DNS_Q_FIXED <= msgbuf_size &&
+    (msg_size_ret == NULL || *msg_size_ret == msg_size + VF_DNS_WIRE(name_len) + VF_DNS_Q_FIXED)))
+/* RFC 1035 4.1.2: QTYPE, QCLASS big-endian right after the name */
+__CPROVER_ensures(VF_RV == 0 ==> (
+    VF_DNS_BE16(hdr, msg_size + VF_DNS_WIRE(name_len)) == query_type &&
+    VF_DNS_BE16(hdr, msg_size + VF_DNS_WIRE(name_len) + 2) == query_class))
+/* QDCOUNT + 1 in network order; no other byte below msg_size changes (also on failure) */
+__CPROVER_ensures(VF_RV == 0 ==> VF_DNS_QD(hdr) == (size_t)(uint16_t)(__CPROVER_old(VF_DNS_QD(hdr)) + 1))
+__CPROVER_ensures((hdr != NULL && vf_dns_k != 4 && vf_dns_k != 5) ==> VF_DNS_PREFIX_KEPT(hdr, msg_size, msgbuf_size))
+__CPROVER_ensures((hdr != NULL && VF_RV != 0 && msg_size >= 6) ==>
+    (VF_DNS_U8(hdr, 4) == __CPROVER_old(VF_DNS_U8(hdr, 4)) && VF_DNS_U8(hdr, 5) == __CPROVER_old(VF_DNS_U8(hdr, 5))))
+;
+
+/* append a resource record (the caller counts it with dns_hdr_an/ns/ar_inc) */
+static inline int
+dns_msg_rr_add(dns_hdr_p hdr, size_t msg_size, size_t msgbuf_size, int compress,
+    const uint8_t *name, size_t name_len, uint16_t type, uint16_t class,
+    uint32_t ttl, uint16_t data_size, void *data, size_t *rr_size)
+__CPROVER_requires(name_len <= VF_DNS_MSG_MAX && msgbuf_size <= VF_DNS_MSG_MAX && msg_size <= VF_DNS_MSG_MAX)
+__CPROVER_requires(VF_DNS_BUF(hdr, msgbuf_size))
+VF_DNS_SNAP(hdr, msgbuf_size)
+__CPROVER_requires(name == NULL || name_len == 0 || __CPROVER_is_fresh(name, name_len))
+__CPROVER_requires(data_size == 0 || __CPROVER_is_fresh(data, data_size))
+__CPROVER_requires(VF_OUT_OPT(rr_size, size_t))
+__CPROVER_assigns(hdr != NULL: __CPROVER_object_upto((uint8_t *)hdr, msgbuf_size))
+__CPROVER_assigns(rr_size != NULL: *rr_size)
+__CPROVER_ensures(VF_RV == 0 || VF_RV == EINVAL || VF_RV == EBADMSG || VF_RV == EOVERFLOW || VF_RV == EOPNOTSUPP)
+__CPROVER_ensures(hdr == NULL ==> VF_RV == EINVAL)
+__CPROVER_ensures((hdr != NULL && msg_size >= VF_DNS_HDR_SIZE &&
+    msgbuf_size < msg_size + VF_DNS_NAME_RESERVE(name_len) + VF_DNS_RR_FIXED + data_size) ==> VF_RV == EOVERFLOW)
+__CPROVER_ensures((hdr != NULL && VF_RV == EOVERFLOW) ==> VF_DNS_PREFIX_KEPT(hdr, msgbuf_size, msgbuf_size))
+/* success: the reported size is the real new message size, inside the buffer */
+__CPROVER_ensures(VF_RV == 0 ==> (msg_size + VF_DNS_WIRE(name_len) + VF_DNS_RR_FIXED + data_size <= msgbuf_size &&
+    (rr_size == NULL || *rr_size == msg_size + VF_DNS_WIRE(name_len) + VF_DNS_RR_FIXED + data_size)))
+/* RFC 1035 4.1.3: TYPE, CLASS, TTL, RDLENGTH big-endian, then RDATA */
+#define VF_DNS_RRF(hdr, msg_size, name_len)	(msg_size + VF_DNS_WIRE(name_len))
+__CPROVER_ensures(VF_RV == 0 ==> (
+    VF_DNS_BE16(hdr, VF_DNS_RRF(hdr, msg_size, name_len)) == type &&
+    VF_DNS_BE16(hdr, VF_DNS_RRF(hdr, msg_size, name_len) + 2) == class &&
+    VF_DNS_BE16(hdr, VF_DNS_RRF(hdr, msg_size, name_len) + 4) == (ttl >> 16) &&
+    VF_DNS_BE16(hdr, VF_DNS_RRF(hdr, msg_size, name_len) + 6) == (ttl & 0xffff) &&
+    VF_DNS_BE16(hdr, VF_DNS_RRF(hdr, msg_size, name_len) + 8) == data_size))
+__CPROVER_ensures((VF_RV == 0 && vf_dns_k < data_size) ==>
+    VF_DNS_U8(hdr, VF_DNS_RRF(hdr, msg_size, name_len) + VF_DNS_RR_FIXED + vf_dns_k) == VF_DNS_U8(data, vf_dns_k))
+/* nothing already in the message changes, counters included */
+__CPROVER_ensures(hdr != NULL ==> VF_DNS_PREFIX_KEPT(hdr, msg_size, msgbuf_size))
+;
+
+/* append an EDNS0 OPT pseudo-RR (RFC 2671 4.3): root name, TYPE 41, CLASS = payload size,
+ * TTL = ext-rcode | version | flags, RDLENGTH, RDATA */
+static inline int
+dns_msg_optrr_add(dns_hdr_p hdr, size_t msg_size, size_t msgbuf_size,
+    uint16_t udp_payload_size, uint8_t version, uint8_t ex_rcode, uint16_t ex_flags,
+    uint16_t data_size, void *data, size_t *rr_size)
+__CPROVER_requires(msgbuf_size <= VF_DNS_MSG_MAX && msg_size <= VF_DNS_MSG_MAX)
+__CPROVER_requires(VF_DNS_BUF(hdr, msgbuf_size))
+VF_DNS_SNAP(hdr, msgbuf_size)
+__CPROVER_requires(data == NULL || data_size == 0 || __CPROVER_is_fresh(data, data_size))
+__CPROVER_requires(VF_OUT_OPT(rr_size, size_t))
+__CPROVER_assigns(hdr != NULL: __CPROVER_object_upto((uint8_t *)hdr, msgbuf_size))
+__CPROVER_assigns(rr_size != NULL: *rr_size)
+__CPROVER_ensures(VF_RV == 0 || VF_RV == EINVAL || VF_RV == EBADMSG || VF_RV == EOVERFLOW)
+__CPROVER_ensures((hdr == NULL || (data == NULL && data_size != 0)) ==> VF_RV == EINVAL)
+__CPROVER_ensures((hdr != NULL && !(data == NULL && data_size != 0) && msg_size >= VF_DNS_HDR_SIZE) ==>
+    ((VF_RV == EOVERFLOW) == (msgbuf_size < msg_size + 11 + data_size)))
+__CPROVER_ensures((VF_RV == 0 || VF_RV == EOVERFLOW) ==> (rr_size == NULL || *rr_size == msg_size + 11 + data_size))
+__CPROVER_ensures(VF_RV == 0 ==> (VF_DNS_U8(hdr, msg_size) == 0 &&
+    VF_DNS_BE16(hdr, msg_size + 1) == 41 && VF_DNS_BE16(hdr, msg_size + 3) == udp_payload_size &&
+    VF_DNS_U8(hdr, msg_size + 5) == version && VF_DNS_U8(hdr, msg_size + 6) == ex_rcode &&
+    VF_DNS_U8(hdr, msg_size + 7) == (uint8_t)ex_flags && VF_DNS_U8(hdr, msg_size + 8) == (uint8_t)(ex_flags >> 8) &&
+    VF_DNS_BE16(hdr, msg_size + 9) == data_size))
+__CPROVER_ensures((VF_RV == 0 && vf_dns_k < data_size) ==>
+    VF_DNS_U8(hdr, msg_size + 11 + vf_dns_k) == VF_DNS_U8(data, vf_dns_k))
+__CPROVER_ensures(hdr != NULL ==> VF_DNS_PREFIX_KEPT(hdr, msg_size, msgbuf_size))
+;
 
 #endif /* !VF_REPLAY */
 #endif /* VF_CONTRACTS_DNS_H */
